@@ -22,8 +22,6 @@ WRAPPERS = {
     'Tree::node_indices': ('Iterator::map(self.arena, closure {closure#0}[])', ['_2.0'], 'the keys of the arena, in index order'),
     'Tree::node_iter': ('self.arena', [], 'the (index, node) pairs of the arena, in index order'),
     'Tree::get_root_idx': ('self.root', [], 'the stored root index'),
-    'Tree::is_root': (['phi((self.root Eq idx) | False)', '(self.root Eq idx)', '(idx Eq self.root)'], [], 'idx is the stored root index'),
-    'Tree::is_leaf': ('Result::map(Tree::tree_node(self, idx), closure {closure#0}[])', ['nd.isleaf'], 'the leaf flag of that node (Err for an invalid index)'),
     'Tree::dfs_edge_iter': ('DfsEdge::iter(self, Tree::get_root_idx(self))', [], 'edge traversal from the root'),
     'Tree::len': ('Slab::len(self.arena)', [], 'number of stored nodes'),
     'AffTree::len': ('Tree::len(self.tree)', [], 'delegates to the arena tree'),
